@@ -38,11 +38,11 @@ def _tel(pkg):
 
 class P(vlib.Prop):
     pid = "C19"
-    coq_dirs = ["Common", "C19"]
+    coq_dirs = ["Common", "C19"]   # + Generated/C19*.v (written by P.translate, scanned below)
     coq_targets = ["C19/Properties.vo", "C19/Witness.vo", "C19/Harness.vo"]
     properties_module = "C19.Properties"
     properties_file = "C19/Properties.v"
-    instance_obligations = []
+    instance_obligations = []   # the four translator obligations (…_is_translated, validated_batch_is_valid_batch) are theorems of Properties.v
     harness_module = "C19.Harness"
     case_type = "vcase"
     shard = 60
@@ -87,6 +87,7 @@ class P(vlib.Prop):
     trusted_base = [
         "Coq 8.16.1 kernel + vm_compute (coqc); no axioms (Print Assumptions: closed under the global context)",
         "hand-written ledger model coq/C19/Model.v, tied to the Go helpers by the correspondence run on every check",
+        "translator T1 (tools/go2coq): toNumItems and BatchConfig.Validate are re-read from the current source; the hand-written pieces are proved equal to the generated ones (C19/Translated.v)",
         "Go harnesses harness/C19/*.go (receiverhelper, scraperhelper, processorhelper, service/internal/obsconsumer, exporterhelper/internal) + go test -overlay (incl. an add-only accessor file in queuebatch); Go toolchain",
         "the OpenTelemetry SDK's sum aggregation and manual reader (counters are read back through it)",
     ]
@@ -98,6 +99,8 @@ class P(vlib.Prop):
     ]
 
     def translate(self, ctx):
+        # translator T1: re-read the loop-free functions of the exporter helper from the current source
+        vlib.go2coq(ctx, "exporter", os.path.join(_HERE, "t1_spec.json"), "C19ExpHelper")
         src = open(os.path.join(vlib.VERIF, "harness", "C19", "tel.go.tmpl")).read()
         os.makedirs(_WORK, exist_ok=True)
         for pkg in ("receiverhelper", "scraperhelper", "processorhelper", "internal", "obsconsumer", "exporterhelper"):
